@@ -42,7 +42,10 @@ __CPROVER_requires(OFF(self->m_transitions) == 0 && OBJSZ(self->m_transitions) =
 __CPROVER_requires(OFF(self->m_states) == 0 && OBJSZ(self->m_states) == (size_t)self->m_numStates * sizeof(State))
 __CPROVER_requires(SAME(slot, g_pool) && OFF(slot) % sizeof(Slot) == 0 && OFF(slot) < sizeof(g_pool))
 __CPROVER_assigns(fsm->slots_->m_size, fsm->slots_->m_precontext, __CPROVER_object_whole(fsm->slots_->m_slot_map))
-__CPROVER_ensures(fsm->slots_->m_size <= MAX_SLOTS);
+__CPROVER_ensures(fsm->slots_->m_size <= MAX_SLOTS)
+/* C06: the walk gives a negative verdict (the accumulated rules are dropped by findNDoRule) only for lack of pre-context or because
+   the match filled the slot map - never because of the glyph that follows the match (outside the range table, or without a column) */
+__CPROVER_ensures(!__CPROVER_return_value ==> (fsm->slots_->m_precontext < self->m_minPreCtxt || fsm->slots_->m_size == MAX_SLOTS));
 /*@extract {'file':'src/Pass.cpp', 'sig': r'bool Pass::runFSM\(FiniteStateMachine& fsm, Slot \* slot\) const', 'emit':'bool Pass_runFSM(const Pass *self, FiniteStateMachine *fsm, Slot *slot)',
    'subs':[[r'fsm\.slots\b', '(*fsm.slots_)', 0], [r'fsm\.rules\b', '(*fsm.rules_)', 0], [r'SlotMap::MAX_SLOTS', 'MAX_SLOTS', 0]],
    'methods':['reset','context','pushSlot','accumulate_rules','gid','next'], 'refs':['fsm'],
